@@ -544,6 +544,29 @@ Grad(sp, f, x) ==
                               IN IF XKnown(dd) THEN QDiv(dd, sp.W[i]) ELSE NaN])
 GradKnown(g) == \A i \in 1..Len(g) : XKnown(g[i])
 
+(* ----- indicator functionals just outside their set -------------------------- *)
+\* b + t d lies OUTSIDE dom f for EVERY t > 0 (decided exactly: b on the boundary of the closed convex set, d an
+\* outward direction; radial directions d = b for the unit balls).  The implementation is then asked at
+\* t = 2^-30, 2^-40: the value must be +inf - none of these classes documents a tolerance.
+RECURSIVE OutsideRay(_, _, _, _)
+OutsideRay(sp, f, b, d) ==
+  LET N == Len(b) IN
+  CASE f.op = "IndZero"    -> RIsZero(b) /\ ~RIsZero(d)
+    [] f.op = "IndBox"     -> \E i \in 1..N : (b[i] = f.c /\ d[i][1] > 0) \/ (b[i] = f.s /\ d[i][1] < 0)
+    [] f.op = "IndNonneg"  -> \E i \in 1..N : b[i] = QZero /\ d[i][1] < 0
+    [] f.op = "IndBall1"   -> d = b /\ AbsSumW(sp, b) = QOne
+    [] f.op = "IndBall2"   -> d = b /\ NormSq(sp, b) = QOne
+    [] f.op = "IndBallInf" -> d = b /\ MaxAbs(b) = QOne
+    [] f.op = "IndGroupBall" -> d = b /\ \E i \in 1..NGrp(sp) :
+                                  (IF PExp(f) = 1 THEN GAbs1(sp, b, i) ELSE IF PExp(f) = 3 THEN GMaxA(sp, b, i)
+                                   ELSE GSq(sp, b, i)) = QOne
+    [] f.op = "Translate"  -> OutsideRay(sp, Arg(f), RSub(b, f.u), d)
+    [] f.op = "AddConst"   -> OutsideRay(sp, Arg(f), b, d)
+    \* conjugates of constant and affine functionals: dom f* is the single point 0 resp. u
+    [] f.op = "Conj" /\ Arg(f).op = "Const" -> RIsZero(b) /\ ~RIsZero(d)
+    [] f.op = "Conj" /\ Arg(f).op = "Quad" /\ Arg(f).v = <<>> -> b = Arg(f).u /\ ~RIsZero(d)
+    [] OTHER -> FALSE
+
 (* ----- is_linear: the flag claims a linear map; the VALUES can refute it ----- *)
 \* (weak reading: the specification never asserts linearity, it only exhibits lattice points where
 \*  additivity, homogeneity or f(0) = 0 fail)
@@ -554,6 +577,19 @@ LinearRefutedAt(sp, f, x, y) ==
      \/ XKnown(a) /\ XKnown(d) /\ ~Big(a) /\ d # QMul(QI(2), a)
      \/ XKnown(z) /\ z # QZero
      \/ a = Inf \/ b = Inf
+
+(* ----- NumericalGradient: the documented difference quotients of the values --- *)
+\* method m in {"forward", "backward", "central"}, step h ; entry i is the quotient along e_i, represented in
+\* the inner product of sp (divided by the weight), so that <grad, d> is the difference quotient along d
+NumGrad(sp, f, x, m, h) ==
+  LET N == Len(x)
+      P(i, t) == RAdd(x, RScal(t, UnitVec(N, i)))
+      quo(i) == CASE m = "forward"  -> QDiv(QSub(Val(sp, f, P(i, h)), Val(sp, f, x)), h)
+                  [] m = "backward" -> QDiv(QSub(Val(sp, f, x), Val(sp, f, P(i, QNeg(h)))), h)
+                  [] m = "central"  -> QDiv(QSub(Val(sp, f, P(i, QHalf(h))), Val(sp, f, P(i, QNeg(QHalf(h))))), h)
+      ok(i) == /\ XKnown(Val(sp, f, x)) /\ ~Big(Val(sp, f, x))
+               /\ \A t \in {h, QNeg(h), QHalf(h), QNeg(QHalf(h))} : XKnown(Val(sp, f, P(i, t))) /\ ~Big(Val(sp, f, P(i, t)))
+  IN Strict([i \in 1..N |-> IF ok(i) THEN QDiv(quo(i), sp.W[i]) ELSE NaN])
 
 (* ------------------- Lipschitz bound: checked, never computed ---------- *)
 LipschitzHolds(sp, L, x, y, gx, gy) ==
